@@ -31,7 +31,8 @@ DECIDES = ('Composition of USBSerialDevice, each clause a necessary condition: (
            'IN and OUT endpoints are all registered with the USBDevice submodule; (e) the bus given to the constructor is the bus of '
            'USBDevice and of its control endpoint, the descriptors given to the standard handler are those of create_descriptors, '
            'every registered endpoint class compares the token endpoint with exactly the endpoint_number it is constructed with; '
-           'thorough tier: the same for max_packet_size 256 and 512. ')
+           'the control endpoint is built with the max packet size the device descriptor announces as bMaxPacketSize0; the device '
+           'clauses are evaluated for the default configuration and for max_packet_size 512 (thorough tier: 256 too). ')
 NOT_DECIDED = ('enumeration behaviour itself (control transfer stages C07, address / configuration C08, GET_DESCRIPTOR C09, STALL of '
                'unsupported standard requests and the routing of the request multiplexer C10); byte order and exactly-once delivery '
                'through the endpoints and FIFOs (bulk IN C11, bulk OUT C13, data toggles C14, FIFO C18, endpoint isolation C12); '
